@@ -32,6 +32,8 @@ import (
 	"github.com/tendermint/tendermint/crypto/ed25519"
 	tmmath "github.com/tendermint/tendermint/libs/math"
 	tmproto "github.com/tendermint/tendermint/proto/tendermint/types"
+	tmversion "github.com/tendermint/tendermint/proto/tendermint/version"
+	"github.com/tendermint/tendermint/version"
 )
 
 // ---------------------------------------------------------------- abstract input
@@ -60,10 +62,26 @@ type c07Commit struct {
 	Sigs   []c07Slot `json:"sigs"`
 }
 
+// how the ValidatorSet under test comes into being: built in memory (path "none") or decoded from its
+// proto form after the unauthenticated fields of the encoded form were rewritten
+type c07Wire struct {
+	Path     string `json:"path"`     // none | valset | lightblock
+	Total    string `json:"total"`    // tag of the number written into total_voting_power
+	Proposer string `json:"proposer"` // same | other | outsider | nil
+	Prio     string `json:"prio"`     // same | scrambled
+}
+
+type c07Dec struct {
+	Ok       bool   `json:"ok"`
+	Err      string `json:"err"`
+	HashSame bool   `json:"hash_same"` // the decoded set hashes like the original (the hash covers none of the rewritten fields)
+}
+
 type c07Case struct {
 	Pv    []int64   `json:"pv"` // base power vector (TLC cases)
 	Frame string    `json:"frame"`
 	Kinds []string  `json:"kinds"`
+	Wire  c07Wire   `json:"wire"`
 	Chain string    `json:"chain"`
 	H     int64     `json:"h"`
 	Bid   string    `json:"bid"`
@@ -103,8 +121,10 @@ type c07Trust struct {
 }
 
 type c07Run struct {
-	Scale string     `json:"scale"`
-	Pv    [][]int64  `json:"pv"`
+	Scale    string     `json:"scale"`
+	Pv       [][]int64  `json:"pv"`
+	EncTotal []int64    `json:"enc_total"`
+	Dec      c07Dec     `json:"dec"`
 	Full  c07Res     `json:"full"`
 	Light c07Res     `json:"light"`
 	Trust []c07Trust `json:"trust"`
@@ -116,6 +136,7 @@ type c07Line struct {
 	Hand  bool      `json:"handbuilt"`
 	Frame string    `json:"frame"`
 	Kinds []string  `json:"kinds"`
+	Wire  c07Wire   `json:"wire"`
 	Ids   []string  `json:"ids"`
 	Chain string    `json:"chain"`
 	H     int64     `json:"h"`
@@ -322,6 +343,139 @@ func (w *c07World) valset(pv []int64, handBuilt bool) (vs *ValidatorSet, err err
 	return vs, nil
 }
 
+// ---------------------------------------------------------------- the wire
+// the concrete number behind a total tag, for a concrete power vector
+func c07ForgedTotal(tag string, pv []int64) (int64, error) {
+	sum := int64(0)
+	for _, p := range pv {
+		sum += p
+	}
+	switch tag {
+	case "zero", "":
+		return 0, nil
+	case "one":
+		return 1, nil
+	case "small":
+		if len(pv) == 0 {
+			return 0, nil
+		}
+		return pv[0], nil
+	case "half":
+		return sum / 2, nil
+	case "sum":
+		return sum, nil
+	case "sum_plus_1":
+		return sum + 1, nil
+	case "max":
+		return MaxTotalVotingPower, nil
+	case "over":
+		return MaxTotalVotingPower + 1, nil
+	}
+	return 0, fmt.Errorf("unknown total tag %q", tag)
+}
+
+// Sends the validator set (and, for path "lightblock", the commit with it) through the proto
+// form: ToProto, the adversary's rewriting of the unauthenticated fields, Marshal, Unmarshal,
+// ValidatorSetFromProto / LightBlockFromProto.  Returns what the decoder handed back.
+func (w *c07World) throughWire(vs *ValidatorSet, commit *Commit, wire c07Wire, forged int64, chain string) (dvs *ValidatorSet, dcommit *Commit, dec c07Dec, herr error) {
+	defer func() {
+		if r := recover(); r != nil {
+			msg := fmt.Sprint(r)
+			dvs, dcommit = nil, nil
+			if c07ReTotal.MatchString(msg) {
+				dec = c07Dec{Ok: false, Err: "panic_total"}
+			} else {
+				if len(msg) > 60 {
+					msg = msg[:60]
+				}
+				dec = c07Dec{Ok: false, Err: "panic_other:" + msg}
+			}
+		}
+	}()
+	vp, err := vs.ToProto()
+	if err != nil {
+		return nil, nil, dec, err
+	}
+	vp.TotalVotingPower = forged
+	switch wire.Proposer {
+	case "same", "":
+	case "other":
+		cp := *vp.Validators[len(vp.Validators)-1]
+		vp.Proposer = &cp
+	case "outsider":
+		o, err := NewValidator(w.keys["vx"].PubKey(), 1).ToProto()
+		if err != nil {
+			return nil, nil, dec, err
+		}
+		vp.Proposer = o
+	case "nil":
+		vp.Proposer = nil
+	default:
+		return nil, nil, dec, fmt.Errorf("unknown proposer tag %q", wire.Proposer)
+	}
+	if wire.Prio == "scrambled" {
+		for i, v := range vp.Validators {
+			v.ProposerPriority = int64(1000003*(i+1)) - 7
+		}
+		if vp.Proposer != nil {
+			vp.Proposer.ProposerPriority = -424242
+		}
+	}
+	var derr error
+	dcommit = commit
+	switch wire.Path {
+	case "valset":
+		bz, err := vp.Marshal()
+		if err != nil {
+			return nil, nil, dec, err
+		}
+		var vp2 tmproto.ValidatorSet
+		if err := vp2.Unmarshal(bz); err != nil {
+			return nil, nil, dec, err
+		}
+		dvs, derr = ValidatorSetFromProto(&vp2)
+	case "lightblock":
+		hh := func(s string) []byte { x := sha256.Sum256([]byte(s)); return x[:] }
+		hdr := &Header{
+			Version: tmversion.Consensus{Block: version.BlockProtocol}, ChainID: chain, Height: commit.Height,
+			Time: c07Time(5), LastCommitHash: hh("lc"), DataHash: hh("d"), ValidatorsHash: vs.Hash(),
+			NextValidatorsHash: vs.Hash(), ConsensusHash: hh("c"), AppHash: hh("a"), LastResultsHash: hh("r"),
+			EvidenceHash: hh("e"), ProposerAddress: vs.Validators[0].Address,
+		}
+		sh := &SignedHeader{Header: hdr, Commit: commit}
+		lbp := &tmproto.LightBlock{SignedHeader: sh.ToProto(), ValidatorSet: vp}
+		bz, err := lbp.Marshal()
+		if err != nil {
+			return nil, nil, dec, err
+		}
+		var lbp2 tmproto.LightBlock
+		if err := lbp2.Unmarshal(bz); err != nil {
+			return nil, nil, dec, err
+		}
+		var lb *LightBlock
+		lb, derr = LightBlockFromProto(&lbp2)
+		if derr == nil {
+			dvs, dcommit = lb.ValidatorSet, lb.Commit
+		}
+	default:
+		return nil, nil, dec, fmt.Errorf("unknown wire path %q", wire.Path)
+	}
+	if derr != nil {
+		msg := derr.Error()
+		switch {
+		case regexp.MustCompile(`validatorSet proposer error`).MatchString(msg):
+			return nil, nil, c07Dec{Ok: false, Err: "proposer"}, nil
+		case regexp.MustCompile(`validator set is nil or empty`).MatchString(msg):
+			return nil, nil, c07Dec{Ok: false, Err: "empty"}, nil
+		}
+		if len(msg) > 60 {
+			msg = msg[:60]
+		}
+		return nil, nil, c07Dec{Ok: false, Err: "other:" + msg}, nil
+	}
+	return dvs, dcommit, c07Dec{Ok: true, Err: "none", HashSame: bytes.Equal(dvs.Hash(), vs.Hash())}, nil
+}
+
 // ---------------------------------------------------------------- observing one call
 
 var (
@@ -491,7 +645,14 @@ func (w *c07World) execute(cs *c07Case, scales []string) (*c07Line, error) {
 	if kinds == nil {
 		kinds = []string{}
 	}
-	line := &c07Line{Ev: "Check", Src: src, Hand: cs.HandBuilt, Frame: cs.Frame, Kinds: kinds, Ids: make([]string, n), Chain: cs.Chain,
+	wire := cs.Wire
+	if wire.Path == "" {
+		wire = c07Wire{Path: "none", Total: "zero", Proposer: "same", Prio: "same"}
+	}
+	if wire.Path == "lightblock" && commit.ValidateBasic() != nil {
+		wire.Path = "valset" // a commit that no decoder lets through cannot travel inside a light block
+	}
+	line := &c07Line{Ev: "Check", Src: src, Wire: wire, Hand: cs.HandBuilt, Frame: cs.Frame, Kinds: kinds, Ids: make([]string, n), Chain: cs.Chain,
 		H: cs.H, Bid: cs.Bid, C: cs.C, Runs: []c07Run{}}
 	for i := range line.Ids {
 		line.Ids[i] = "v" + strconv.Itoa(i+1)
@@ -504,15 +665,37 @@ func (w *c07World) execute(cs *c07Case, scales []string) (*c07Line, error) {
 		if err != nil {
 			return nil, err
 		}
-		run := c07Run{Scale: r.label, Pv: make([][]int64, n), Trust: []c07Trust{}}
+		run := c07Run{Scale: r.label, Pv: make([][]int64, n), Trust: []c07Trust{}, EncTotal: []int64{},
+			Dec: c07Dec{Ok: true, Err: "none", HashSame: true}}
 		for i, p := range r.pv {
 			run.Pv[i] = c07Limbs(p)
 		}
-		run.Full = c07Observe(func() error { return vs.VerifyCommit(cs.Chain, argBid, cs.H, commit) })
-		run.Light = c07Observe(func() error { return vs.VerifyCommitLight(cs.Chain, argBid, cs.H, commit) })
+		uvs, ucommit := vs, commit // the objects the functions are called on
+		if wire.Path != "none" {
+			forged, err := c07ForgedTotal(wire.Total, r.pv)
+			if err != nil {
+				return nil, err
+			}
+			run.EncTotal = c07Limbs(forged)
+			uvs, ucommit, run.Dec, err = w.throughWire(vs, commit, wire, forged, cs.Chain)
+			if err != nil {
+				return nil, err
+			}
+		}
+		if !run.Dec.Ok {
+			nd := c07Res{Ok: false, Err: "nodecode", Idx: -1, Got: []int64{}, Needed: []int64{}}
+			run.Full, run.Light = nd, nd
+			for _, f := range fracs {
+				run.Trust = append(run.Trust, c07Trust{Num: c07LimbsU(f[0]), Den: c07LimbsU(f[1]), Res: nd})
+			}
+			line.Runs = append(line.Runs, run)
+			continue
+		}
+		run.Full = c07Observe(func() error { return uvs.VerifyCommit(cs.Chain, argBid, cs.H, ucommit) })
+		run.Light = c07Observe(func() error { return uvs.VerifyCommitLight(cs.Chain, argBid, cs.H, ucommit) })
 		for _, f := range fracs {
 			lvl := tmmath.Fraction{Numerator: f[0], Denominator: f[1]}
-			res := c07Observe(func() error { return vs.VerifyCommitLightTrusting(cs.Chain, commit, lvl) })
+			res := c07Observe(func() error { return uvs.VerifyCommitLightTrusting(cs.Chain, ucommit, lvl) })
 			run.Trust = append(run.Trust, c07Trust{Num: c07LimbsU(f[0]), Den: c07LimbsU(f[1]), Res: res})
 		}
 		line.Runs = append(line.Runs, run)
@@ -781,6 +964,15 @@ func c07RandomCase(rng *rand.Rand) *c07Case {
 		dec[i] = strconv.FormatInt(p, 10)
 	}
 	cs.Powers, cs.Labels = [][]string{dec}, []string{"random"}
+	// every sixth set goes through the wire, with the unauthenticated fields rewritten
+	if !handBuilt && rng.Intn(6) == 0 {
+		cs.Wire = c07Wire{
+			Path:     []string{"valset", "lightblock"}[rng.Intn(2)],
+			Total:    []string{"zero", "one", "one", "small", "half", "half", "sum", "sum_plus_1", "max", "over"}[rng.Intn(10)],
+			Proposer: []string{"same", "same", "same", "other", "outsider", "nil"}[rng.Intn(6)],
+			Prio:     []string{"same", "scrambled"}[rng.Intn(2)],
+		}
+	}
 	// trust levels: the usual ones plus a few random small ones (num, den < 10^4)
 	fr2 := [][2]uint64{{1, 3}, {2, 3}, {1, 2}, {uint64(fr[0]), uint64(fr[1])}}
 	for k := 0; k < 3; k++ {
